@@ -13,7 +13,7 @@ pub fn prop() -> HistProp {
         max_ops: 25,
         max_prepop: 8,
         cases_quick: 700,
-        cases_thorough: 12_000,
+        cases_thorough: 50_000,
         nontrivial: |s, _| s.max_levels >= 2 && s.prefix_pair_present && s.absent_probed >= 1 && s.below_file_probed >= 1,
         rule: "reachable states of untyped histories vec(op,0..=25) on every backend stack; after every step for every universe path (absent ones, paths below files and the root included): exists<=>metadata Ok, is_file/is_dir<=>metadata type, exists(p)<=>parent lists name exactly once, listed names bare and existing, is_dir<=>read_dir Ok, is_file<=>read session Ok with len=metadata.len, walk_dir(d) = recursive read_dir as a set, each once, parent before child; no model involved; non-trivial = state with >=2 levels, a prefix-sibling name pair in the pool, >=1 absent and >=1 below-a-file path probed",
         floors: vec![("distinct_nontrivial", 20), ("cfg:mem", 3), ("cfg:phys", 3), ("cfg:altroot", 3), ("cfg:overlay", 3)],
